@@ -207,6 +207,24 @@ Section accept.
     (skip = true \/ exists cs, block_checks exact r bs = Some cs /\ Forall check_holds cs).
 End accept.
 
+(* ---- VerifyConfig: a configuration = the values of its bool fields (names
+   and the position of SkipBodyHashValidation come from C34/Gen.v).  The body
+   comparisons do not depend on any other flag: a flag can only ADD checks,
+   and those (Byron ssc_proof hash comparison, anything a future flag brings)
+   live in struct_ok, which is a function of the configuration. ---- *)
+Definition config := list bool.
+Definition flag_on (idx : nat) (cfg : config) : bool := nth idx cfg false.
+Definition decode_ok_cfg (H : bytes -> bytes) (exact : bool) (skip_idx : nat)
+    (struct_ok : config -> bool) (r : era_row) (bs : bytes) (cfg : config) : Prop :=
+  decode_ok H exact (flag_on skip_idx cfg) (struct_ok cfg) r bs.
+Fixpoint all_configs (n : nat) : list config :=
+  match n with
+  | O => [[]]
+  | S k => map (cons false) (all_configs k) ++ map (cons true) (all_configs k)
+  end.
+Definition validating_configs (n skip_idx : nat) : list config :=
+  filter (fun c => negb (flag_on skip_idx c)) (all_configs n).
+
 Fixpoint find_row (tbl : list era_row) (t : N) : option era_row :=
   match tbl with
   | [] => None
